@@ -72,6 +72,7 @@ def fault_catalogue():
         "stderr-binary": {"behaviour": "stderrbin", "reply": VALID_REPLY},
         "no-read-fail": {"behaviour": "noreadfail", "reply": b""},
         "no-read-exit0": {"behaviour": "noread", "reply": b""},     # exits 0 without reading and without replying
+        "flood-before-reading": {"behaviour": "floodfirst", "reply": b""},   # > 64 KiB of output before it reads its input
     }
     for name, reply in corrupt_replies().items():
         cat["reply-" + name] = {"behaviour": "ok", "reply": reply}
@@ -243,7 +244,7 @@ def plan(tier, seed):
 
 def build_cases(tier, rng):
     cat = fault_catalogue()
-    names = sorted(cat)
+    names = sorted(x for x in cat if x != "flood-before-reading")
     cases = []
     for f in names:
         cases.append(([f], "cwd", False))
@@ -262,6 +263,8 @@ def build_cases(tier, rng):
         cases.append((["ok", f], "cwd", True))
         cases.append(([f, "ok", "ok"], "cwd", True))
         cases.append(([f, f, "ok"], "given", True))
+    # one witness of the pipe deadlock (a hang costs the whole 40 s time-out, so it is not part of the random line-ups)
+    cases.append((["flood-before-reading", "ok"], "given", True))
     for _ in range(600 if tier == "quick" else 6000):
         trip = [rng.choice(names + ["ok", "ok"]) for _ in range(3)]
         cases.append((trip, rng.choice(OUT_MODES), rng.random() < 0.1))
